@@ -23,7 +23,7 @@ ASSUMPTIONS = ["active control points are determined by the reference span (nvmo
 FLOORS = {'quick': {'hull': 2500, 'bbox-contains': 2500, 'bbox-equals-net': 200, 'clamped-ends': 300, 'length': 40,
                     'find_ctrlpts': 800, 'hull-via-meval': 1500},
           'thorough': {'hull': 25000, 'hull-via-meval': 15000}}
-MANDATORY_TAGS = ['coarse-precision-sampling', 'container-bbox', 'pdim1', 'pdim2', 'pdim3', 'rational', 'dim2', 'dim3', 'unclamped', 'clamped', 'edit-then-read', 'length:after-partial-evaluate']
+MANDATORY_TAGS = ['copy-read-first', 'coarse-precision-sampling', 'container-bbox', 'pdim1', 'pdim2', 'pdim3', 'rational', 'dim2', 'dim3', 'unclamped', 'clamped', 'edit-then-read', 'length:after-partial-evaluate']
 TECHNIQUE = ("runtime monitoring: separating-hyperplane oracle on every evaluated point (targeted queries and all points "
              "intercepted at evaluators.*.evaluate) against the active control points of its knot span; min/max oracle for bbox; "
              "chord/polygon bounds for length_curve")
@@ -213,6 +213,15 @@ def check(case, ctx):
     ctx.nontriv(interior or (sd['rational'] and len(set(sd.get('weights', [1]))) > 1))
     ctx.tag('pdim%d' % pdim, 'rational' if sd['rational'] else 'nonrational', 'dim%d' % len(sd['ctrlpts'][0]),
             'clamped' if clamped else 'unclamped')
+    # ---- (round 8) a transformed deep copy exists and is read FIRST: the box, the hull and the ends below are still those of this shape ----
+    if rng.random() < 0.3:
+        ctx.tag('copy-read-first')
+        moved = operations.translate(o, [7.5 * sc] * o.dimension) if rng.random() < 0.5 else operations.scale(o, 3.0)
+        _ = moved.bbox, [list(p_) for p_ in moved.ctrlpts]
+        if sd['rational']:
+            _ = list(moved.weights)
+        if rng.random() < 0.5:
+            _ = moved.evalpts
     # ---- bounding box ----------------------------------------------------------------------------------------------------
     bb = o.bbox
     cart = [[float(c) for c in S.cart(t)] for t in S.net]
